@@ -186,8 +186,8 @@ theorem c16_no_logger (ev : String → Outcome) (tpl tp ctx : String) (r : Rende
     `LogActionResult.process` tests the logger's truthiness (candidate finding `C16/falsy-logger-skipped`):
     negation of "the message goes to the configured tracepoint logger", on a witness. -/
 theorem c16_falsy_logger_witness :
-    (logActionWith .falsy (fun _ => ⟨false, false, "int", "5", .int 5⟩) "n={n}" "tp" "ctx" false).logger = [] ∧
-    (logActionWith .plain (fun _ => ⟨false, false, "int", "5", .int 5⟩) "n={n}" "tp" "ctx" false).logger
+    (logActionWith .falsy (fun _ => ⟨false, false, "int", "5", .int 5, false⟩) "n={n}" "tp" "ctx" false).logger = [] ∧
+    (logActionWith .plain (fun _ => ⟨false, false, "int", "5", .int 5, false⟩) "n={n}" "tp" "ctx" false).logger
       = [[(.msg, "[deep] n=5"), (.tpId, "tp"), (.ctxId, "ctx")]] := by
   decide
 
@@ -203,7 +203,7 @@ theorem c16_snapshot_watches (ev : String → Outcome) (segs : List Seg) (hw : a
     rw [← hr]
 
 /-- model lemma: the hits that fire are hits of the history -/
-theorem C10bridge (c : ActionCtx.Cfg) (hs : List ActionCtx.Hit) (hco : ∀ h ∈ hs, h.coherent) :
+theorem C10bridge (c : ActionCtx.Cfg) (hs : List ActionCtx.Hit) (_hco : ∀ h ∈ hs, h.coherent) :
     ∀ h ∈ ActionCtx.runHits c hs, h ∈ hs := by
   intro h hh
   have gen : ∀ (hs : List ActionCtx.Hit) (st : Extracted.Limiter.Stats), ∀ h ∈ (ActionCtx.runFrom c st hs).2, h ∈ hs := by
@@ -274,9 +274,9 @@ theorem c16_malformed_nothing (ev : String → Outcome) (tpl tp ctx : String) (c
 /-! ### non-vacuity -/
 
 private def ev1 : String → Outcome := fun e =>
-  if e = "x" then ⟨false, false, "int", "5", .int 5⟩
-  else if e = "d['a:b']" then ⟨false, false, "str", "v", .str "v"⟩
-  else ⟨true, true, "NameError", "name 'nope' is not defined", .other⟩
+  if e = "x" then ⟨false, false, "int", "5", .int 5, false⟩
+  else if e = "d['a:b']" then ⟨false, false, "str", "v", .str "v", false⟩
+  else ⟨true, true, "NameError", "name 'nope' is not defined", .other, false⟩
 
 private def segs1 : List Seg :=
   [.lit "a{b}".toList, .lit " ".toList, .field "x".toList none [], .lit "-".toList,
